@@ -27,7 +27,7 @@ use rustc_middle::mir::{
     self, AggregateKind, BorrowKind, Operand, Place, ProjectionElem, Rvalue, StatementKind,
     TerminatorKind, UnwindAction,
 };
-use rustc_middle::ty::print::{with_crate_prefix, with_no_trimmed_paths};
+use rustc_middle::ty::print::{with_crate_prefix, with_no_trimmed_paths, with_no_visible_paths};
 use rustc_middle::ty::{self, Instance, Ty, TyCtxt, TypingEnv};
 use rustc_span::Span;
 
@@ -91,6 +91,13 @@ fn fix_crate(s: String) -> String {
 
 fn path_of(tcx: TyCtxt<'_>, did: DefId) -> String {
     fix_crate(with_crate_prefix!(with_no_trimmed_paths!(tcx.def_path_str(did))))
+}
+
+/// Definition path that does not go through re-exports (`def_path_str` prints the path *visible* in the
+/// current crate for foreign items, so a call to a re-exported function would not link to the defining
+/// crate's function id).
+fn real_path_of(tcx: TyCtxt<'_>, did: DefId) -> String {
+    fix_crate(with_crate_prefix!(with_no_trimmed_paths!(with_no_visible_paths!(tcx.def_path_str(did)))))
 }
 
 fn ty_str(ty: Ty<'_>) -> String {
@@ -288,6 +295,52 @@ fn const_json<'tcx>(tcx: TyCtxt<'tcx>, env: TypingEnv<'tcx>, c: &mir::ConstOpera
                 if u.promoted.is_some() {
                     j.key("promoted");
                     j.bool(true);
+                    // evaluated value of the promoted constant (e.g. `&0_u8`)
+                    let r = std::panic::catch_unwind(std::panic::AssertUnwindSafe(|| {
+                        c.const_.eval(tcx, env, rustc_span::DUMMY_SP)
+                    }));
+                    if let Ok(Ok(v)) = r {
+                        let pv = mir::Const::Val(v, cty);
+                        let mut sv = fix_crate(with_crate_prefix!(with_no_trimmed_paths!(format!("{}", pv))));
+                        if sv.len() > 200 {
+                            let mut cut = 200;
+                            while !sv.is_char_boundary(cut) {
+                                cut -= 1;
+                            }
+                            sv.truncate(cut);
+                        }
+                        j.key("pval");
+                        j.str(&sv);
+                        // `&<int>` promoted: the pointee value
+                        if let ty::Ref(_, inner, _) = cty.kind() {
+                            if inner.is_integral() || inner.is_bool() {
+                                if let mir::ConstValue::Scalar(mir::interpret::Scalar::Ptr(ptr, _)) = v {
+                                    let (prov, off) = ptr.prov_and_relative_offset();
+                                    if let Some(ga) = tcx.try_get_global_alloc(prov.alloc_id()) {
+                                        if let mir::interpret::GlobalAlloc::Memory(a) = ga {
+                                            let te = TypingEnv::fully_monomorphized();
+                                            if let Ok(l) = tcx.layout_of(te.as_query_input(*inner)) {
+                                                let n = l.size.bytes() as usize;
+                                                let o = off.bytes() as usize;
+                                                let bytes = a.inner().inspect_with_uninit_and_ptr_outside_interpreter(o..o + n);
+                                                let mut val: u128 = 0;
+                                                for (i, b) in bytes.iter().enumerate() {
+                                                    val |= (*b as u128) << (8 * i);
+                                                }
+                                                j.key("deref_int");
+                                                if inner.is_signed() {
+                                                    let shift = 128 - 8 * n as u32;
+                                                    j.str(&format!("{}", ((val << shift) as i128) >> shift));
+                                                } else {
+                                                    j.str(&format!("{}", val));
+                                                }
+                                            }
+                                        }
+                                    }
+                                }
+                            }
+                        }
+                    }
                 }
             }
             if cty.is_integral() || cty.is_bool() || cty.is_char() {
@@ -602,6 +655,13 @@ fn body_json<'tcx>(tcx: TyCtxt<'tcx>, def: LocalDefId, body: &mir::Body<'tcx>, j
                     ty::FnDef(did, gargs) => {
                         j.key("callee");
                         j.str(&path_of(tcx, *did));
+                        if !did.is_local() {
+                            let rp = real_path_of(tcx, *did);
+                            if rp != path_of(tcx, *did) {
+                                j.key("callee_def");
+                                j.str(&rp);
+                            }
+                        }
                         j.key("gargs");
                         j.str(&gargs_str(gargs));
                         // self type of trait/inherent call
@@ -623,6 +683,13 @@ fn body_json<'tcx>(tcx: TyCtxt<'tcx>, def: LocalDefId, body: &mir::Body<'tcx>, j
                                 if rd != *did {
                                     j.key("resolved");
                                     j.str(&path_of(tcx, rd));
+                                    if !rd.is_local() {
+                                        let rp = real_path_of(tcx, rd);
+                                        if rp != path_of(tcx, rd) {
+                                            j.key("resolved_def");
+                                            j.str(&rp);
+                                        }
+                                    }
                                 }
                                 if let ty::InstanceKind::Virtual(..) = inst.def {
                                     j.key("virtual");
